@@ -32,6 +32,11 @@ argv, environment) runs on a parser / thread that has just performed the prior c
 of the sequence.  Oracle as on a fresh parser; reported only when a fresh parser judges the same input correctly.
 Every from-scratch case runs in an empty contextvars.Context, so state left behind by one case cannot reach another.
 
+Construction shapes (c06_schema.CONSTRUCTION_SHAPES): the same cases on parsers that are DECLARED differently - with
+argument links (the target key is derived, everything else - in particular the class-typed argument whose init arg is
+linked - stays required), with underscore-named required parameters (optional ones are documented as ignored), with
+as_group=False / explicit argument groups.  Which keys are defined and required must not depend on how they were declared.
+
 The expected keys (which keys a node defines, which are required) come from the shape declaration and from
 `inspect` / `dataclasses` / `typing` on the fixture classes - never from jsonargparse.
 
@@ -59,7 +64,9 @@ META = {
     "the statement names (top level, dotted group, dataclass argument, class group, class-typed argument with nested "
     "dataclass and nested class, List[class], List[dataclass], Dict[str,dataclass], Optional[dataclass], required "
     "subcommands two levels deep, required arguments inside subcommands, add_subclass_arguments(required=True); as "
-    "extensions TypedDict, Optional[class], Union[dataclass,int], nested containers, ActionParser groups), "
+    "extensions TypedDict, Optional[class], Union[dataclass,int], nested containers, ActionParser groups; and three "
+    "construction shapes: argument links onto init args / leaves / dataclass fields, underscore-named required "
+    "parameters, as_group=False and explicit argument groups), "
     "alone and combined below a subcommand; for each shape every position of every base configuration is mutated "
     "and delivered through every channel, so within the stated shapes the enumeration of positions x mutations x "
     "channels is complete, not sampled. The used-parser family repeats the base / required-key / foreign-key cases "
@@ -115,6 +122,16 @@ USED = {
 }
 AIO_QUICK_SKIP = ("string", "env-flat", "default-config-file", "config-arg", "object:nodefaults", "argv-json")
 USED_QUICK_SKIP = ("all-in-one", "box", "nested-containers")  # quick: the three most expensive parsers
+# quick: the construction shapes (c06_schema.CONSTRUCTION_SHAPES) go through one channel per delivery mechanism: without
+# --config text / default config file (text documents: `string`), per-leaf environment variables and JSON-valued options
+# (`env-json` hands the same JSON values to the same value parsers), defaults=False (exists for the recursion into
+# subcommand sections; these shapes have no subcommands)
+CONSTRUCTION_QUICK_SKIP = ("config-arg", "default-config-file", "env-flat", "argv-json", "object:nodefaults")
+# quick: in the required-only bases the spelling neighbours (truncated / extended names) go through one channel per channel
+# class (JSON values on argv: a truncated name cannot be an option name); the bases with every key keep every channel.
+# The names are derived from the DEFINED keys of the node, so they are the same in both bases; what differs is whether
+# the neighbouring key is present - that is kept in every channel class.  (Trimmed to pay for the construction shapes.)
+RELATED_MIN_QUICK = ("object", "validate", "argv-json", "env-json")
 # quick: the `+`-suffixed foreign names go without env-flat (a group that holds a foreign key cannot be spread over
 # per-leaf variables: the variable that carries the key has the same text as in env-json) and without
 # object:nodefaults (that channel exists for the required keys; unknown keys are looked up the same way)
@@ -158,6 +175,10 @@ REQUIRED_FOREIGN_KINDS = [
     "class-group@subcommand",
     "class-spec@subcommand",
     "subclass-arg-spec@subcommand",
+    # construction shapes
+    "class-args-ungrouped@top",
+    "class-spec@class-args-ungrouped",
+    "dataclass-group@class-args-ungrouped",
 ]
 REQUIRED_REQUIRED_KINDS = [
     "required-leaf@top",
@@ -182,6 +203,19 @@ REQUIRED_REQUIRED_KINDS = [
     "subcommand-selector@subcommand",
     "has-required-subcommand-section@top",
     "has-required-subcommand-section@subcommand",
+    # construction shapes: a required class-typed argument one of whose init args is a link target; required keys
+    # declared with as_group=False; required keys whose name begins with an underscore, per node kind
+    "required-spec-linked-init-arg@top",
+    "required-spec-ungrouped@top",
+    "has-required-class-args-ungrouped@top",
+    "required-leaf@class-args-ungrouped",
+    "required-spec@class-args-ungrouped",
+    "required-dataclass-group@class-args-ungrouped",
+    "required-leaf@init_args:underscore-name",
+    "required-leaf@dataclass-group:underscore-name",
+    "required-leaf@dataclass-value:underscore-name",
+    "required-leaf@class-group:underscore-name",
+    "required-dataclass-group@class-group:underscore-name",
 ]
 
 
@@ -442,7 +476,13 @@ def plan(ctx):
             # sub-config, validate, argv-flat, env-json); the other six channels are explored for every node kind in
             # the single-kind shapes and below subcommands in the shape "subcommands"
             chans = [c for c in chans if c not in AIO_QUICK_SKIP]
+        if shape in S.CONSTRUCTION_SHAPES:
+            # thorough: the eleven quick channels (the further spellings / loaders are explored in the node-kind shapes)
+            chans = [c for c in QUICK_CHANNELS if c != "sub-config" and not (ctx.quick and c in CONSTRUCTION_QUICK_SKIP)]
         for mode, variant, subpath, cfg in S.base_configs(shape):
+            if ctx.quick and shape in S.CONSTRUCTION_SHAPES and mode != "full":
+                # quick: the bases with every key (their required keys and nodes include those of the required-only bases)
+                continue
             if ctx.quick and shape == "all-in-one" and subpath == ["go", "all"] and (mode, variant) != ("full", 1):
                 # quick: the expensive all-in-one parser gets the one of its four go/all bases that has every key
                 # and both classes of every class-typed node (list items alternate); the single-kind shapes
@@ -454,13 +494,18 @@ def plan(ctx):
             # quick: foreign key zzq = 1 everywhere and additionally zzq = null in all but the three most expensive
             # parsers (a null value matters to check_values' skip_none, at every group-like / parser-level node kind
             # of the other shapes)
-            values = (1,) if shape in USED_QUICK_SKIP else (1, None)
+            construction = shape in S.CONSTRUCTION_SHAPES
+            values = (1,) if shape in USED_QUICK_SKIP or (ctx.quick and construction) else (1, None)
             # the spelling neighbours of defined keys (truncated / extended names): quick in the single-kind shapes;
             # thorough one pair per defined key there, and one pair per node in the fullest base of all-in-one
             if shape == "all-in-one":
                 related = not ctx.quick and (subpath, mode, variant) == (["go", "all"], "full", 1)
             else:
-                related = True
+                # the construction shapes (links / underscore names / presentation options) vary HOW keys are
+                # declared; they get the plain foreign key and every required key (thorough: also zzq = null, the
+                # required-only bases, all quick channels, used parsers), the name classes and the names defined
+                # elsewhere stay with the shapes that vary the node kinds
+                related = not construction
             every = not ctx.quick and shape != "all-in-one"
             # the `+`-suffixed names (append suffix on a name that is no list-typed key of the node), wherever the
             # spelling neighbours are explored.  quick: the never-defined name (`zzq+`) in the bases with every key (the
@@ -469,7 +514,7 @@ def plan(ctx):
             # and absent in the other); both without the channels SUFFIXED_QUICK_SKIP.  thorough: every base, every
             # channel, and in the bases with every key one defined name per KIND of non-list key of the node
             muts = S.mutations(
-                schema, cfg, subpath, rich=not ctx.quick, values=values, related=related, related_every=every,
+                schema, cfg, subpath, rich=not ctx.quick and not construction, values=values, related=related, related_every=every,
                 suffixed=related, suffixed_every=every and mode == "full",
             )
             if ctx.quick and mode != "full":
@@ -478,9 +523,11 @@ def plan(ctx):
                 mchans = chans
                 if ctx.quick and len(mut) > 5 and mut[5].startswith("plus-"):
                     mchans = [c for c in chans if c not in SUFFIXED_QUICK_SKIP]
+                if ctx.quick and mode != "full" and len(mut) > 5 and mut[5] in ("truncated", "extended"):
+                    mchans = [c for c in chans if c in RELATED_MIN_QUICK]
                 mut_items.append((shape, cfg, mut, mchans))
             # used-parser family: the base, every required key removed / nulled and the plain foreign key at every node
-            if mode != "full" or (ctx.quick and shape in USED_QUICK_SKIP):
+            if mode != "full" or (ctx.quick and (shape in USED_QUICK_SKIP or construction)):
                 continue  # the keys of a required-only base are a subset of those of the full base of the same variant
             if not C.priors_applicable(shape, cfg):
                 continue  # (no such base among the full ones; kept for new shapes)
@@ -648,8 +695,19 @@ def explore(ctx):
             + ("without " + ", ".join(USED_QUICK_SKIP) if ctx.quick else "all (all-in-one: 1 base, 1 prior, 2 channels)")
             + "; bases with every key"
             + "; base + required keys removed / nulled + foreign key zzq = 1 at every node; one parser per (base, prior)",
+            "construction_shapes": ", ".join(S.CONSTRUCTION_SHAPES)
+            + (
+                ": bases with every key, foreign key zzq = 1, required keys removed / nulled, leftovers; without the channels "
+                + ", ".join(CONSTRUCTION_QUICK_SKIP)
+                + "; no name classes, no used-parser family"
+                if ctx.quick
+                else ": every base, zzq = 1 / null, required keys, leftovers, the quick channels, used-parser family; no name classes"
+            ),
             "quick_reduction": "all-in-one/go/all explores 1 of its 4 base configurations (full:1), without the channels "
             + ", ".join(AIO_QUICK_SKIP)
+            + "; truncated / extended names in the required-only bases through "
+            + ", ".join(RELATED_MIN_QUICK)
+            + " only"
             if ctx.quick
             else None,
         },
@@ -676,17 +734,20 @@ def explore(ctx):
     ctx.require(not mismatches, f"every base configuration parses identically through all channels (differs: {mismatches[:5]})")
     if subset:
         return  # development run on a subset of the shapes: coverage guards do not apply (reported as a cap)
+    from mc.core import load_known
+
+    known = {e.get("signature") for e in load_known("C06") if e.get("status") == "open"}
+    if set(ctx.deviations) - known:
+        # the coverage guards below describe a run without (new) deviations: the mutations of a base are not run in a
+        # channel in which the base itself is rejected, so a tree that rejects every base of a shape (seed C06-8) would
+        # otherwise end as "kind not hit" (harness error) instead of reporting the rejected bases
+        return
     hit_foreign = {n for (k, n) in kinds_hit if k == "foreign"}
     hit_required = {n for (k, n) in kinds_hit if k in ("remove", "null")}
     missing = [k for k in REQUIRED_FOREIGN_KINDS if k not in hit_foreign]
     ctx.require(not missing, f"every node kind receives a foreign key (missing: {missing})")
     missing = [k for k in REQUIRED_REQUIRED_KINDS if k not in hit_required]
     ctx.require(not missing, f"every kind of required key is removed and nulled (missing: {missing})")
-    from mc.core import load_known
-
-    known = {e.get("signature") for e in load_known("C06") if e.get("status") == "open"}
-    if set(ctx.deviations) - known:
-        return  # the count guards below describe a run without (new) deviations
     related_shapes = {shape for shape, _, m, _ in mut_items if len(m) > 5}
     expected = {m[2] for shape, _, m, _ in mut_items if m[0] == "foreign" and shape in related_shapes}
     for tagname in ("truncated", "extended", "plus-suffixed", "plus-suffixed-defined"):
